@@ -413,8 +413,10 @@ class Contract:
     max_paths = 4000
     timeout_quick = 30
     timeout_thorough = 60
-    budget_quick = 150   # seconds of wall time per contract after which remaining VCs are left undecided
-    budget_thorough = 900
+    # seconds of wall time per contract after which remaining VCs are left undecided; generous, so that a verdict does
+    # not flip to "undecided" merely because all cores are busy (a passing contract ends long before this)
+    budget_quick = 600
+    budget_thorough = 1800
     bounded_only = False  # contract evaluated only in the bounded tier
     bounded_random = 200
 
